@@ -8,6 +8,7 @@ import (
 
 	"github.com/gogo/protobuf/proto"
 	abci "github.com/tendermint/tendermint/abci/types"
+	"github.com/tendermint/tendermint/consensus"
 	tmproto "github.com/tendermint/tendermint/proto/tendermint/types"
 	sm "github.com/tendermint/tendermint/state"
 	"github.com/tendermint/tendermint/types"
@@ -142,7 +143,64 @@ func applyExternal(b *built, p *lib.HeightPlan, blk *types.Block, id types.Block
 	c.App.Mu.Lock()
 	c.App.Plans[blk.Height] = p
 	c.App.Mu.Unlock()
+	before := c.State.Bytes()
 	st, _, err := c.Exec.ApplyBlock(c.State, id, blk)
+	if err != nil {
+		return st, err
+	}
+	if !bytes.Equal(before, c.State.Bytes()) {
+		return st, fmt.Errorf("ApplyBlock modified the state it was applied to")
+	}
+	c.State = st
+	return st, nil
+}
+
+type crashSignal struct{}
+
+// applyWithCrash applies blk on replica b. With crash, the node dies right after the application's Commit (before
+// ApplyBlock saves the new state), "restarts" and recovers with consensus.Handshaker from its stores.
+func applyWithCrash(b *built, p *lib.HeightPlan, blk *types.Block, id types.BlockID, parts *types.PartSet, seen *types.Commit, crash bool) (st sm.State, err error) {
+	c := b.c
+	c.BlockStore.SaveBlock(blk, parts, seen) // consensus saves the block before applying it
+	if !crash {
+		return applyExternal(b, p, blk, id)
+	}
+	armed := true
+	c.App.OnCall = func(m string) {
+		if m == "CommitDone" && armed {
+			armed = false
+			panic(crashSignal{})
+		}
+	}
+	died := func() (died bool) {
+		defer func() {
+			if r := recover(); r != nil {
+				if _, ok := r.(crashSignal); !ok {
+					panic(r)
+				}
+				died = true
+			}
+		}()
+		_, err = applyExternal(b, p, blk, id)
+		return false
+	}()
+	c.App.OnCall = nil
+	if !died {
+		return st, fmt.Errorf("crash point not reached: %v", err)
+	}
+	// restart
+	loaded, err := c.StateStore.Load()
+	if err != nil {
+		return st, err
+	}
+	if loaded.LastBlockHeight == blk.Height {
+		return st, fmt.Errorf("state was saved before the crash point")
+	}
+	hs := consensus.NewHandshaker(c.StateStore, loaded, c.BlockStore, c.GenDoc)
+	if err := hs.Handshake(c.Proxy); err != nil {
+		return st, fmt.Errorf("handshake: %w", err)
+	}
+	st, err = c.StateStore.Load()
 	if err != nil {
 		return st, err
 	}
@@ -168,7 +226,7 @@ func TestDeterminism(t *testing.T) {
 		spec, prof, sat := genSpec(t, o)
 		withPool := rapid.IntRange(0, 9).Draw(t, "withpool") < 4
 		k := rapid.IntRange(2, maxHeights()).Draw(t, "k")
-		var reps [3]*built
+		var reps [4]*built
 		for i := range reps {
 			r, err := newBuilt(spec, withPool && i == 0, prof, sat)
 			if err != nil {
@@ -177,7 +235,7 @@ func TestDeterminism(t *testing.T) {
 			defer r.c.Close()
 			reps[i] = r
 		}
-		A, B, C := reps[0], reps[1], reps[2]
+		A, B, C, D := reps[0], reps[1], reps[2], reps[3]
 		if !bytes.Equal(A.c.State.Bytes(), B.c.State.Bytes()) || !bytes.Equal(A.c.State.Bytes(), C.c.State.Bytes()) {
 			t.Fatalf("genesis states differ")
 		}
@@ -248,6 +306,18 @@ func TestDeterminism(t *testing.T) {
 			// the stored state is the returned state
 			if ld, err := C.c.StateStore.Load(); err != nil || !bytes.Equal(ld.Bytes(), post.Bytes()) {
 				t.Fatalf("height %d: stored state differs from the returned state (%v)", h, err)
+			}
+
+			// D: a node that (at drawn heights) crashes after the application committed the block and before the new
+			// state is saved, and recovers through the real consensus.Handshaker (replay of the stored ABCI responses)
+			crash := rapid.IntRange(0, 2).Draw(t, "crash") == 0
+			sd, err := applyWithCrash(D, replicaPlan(p, "D"), bb, idB, A.c.Parts[h], A.c.Commits[h], crash)
+			if err != nil {
+				t.Fatalf("height %d: replica D (crash=%v): %v", h, crash, err)
+			}
+			lib.Class(name, fmt.Sprintf("replica-D-crash-recovery:%v", crash))
+			if !bytes.Equal(sd.Bytes(), post.Bytes()) {
+				t.Fatalf("height %d: replica D (crash before state save=%v, recovered by handshake) reaches a different state\nA: %+v\nD: %+v", h, crash, post, sd)
 			}
 		}
 	})
